@@ -170,28 +170,8 @@ Proof.
   - apply kinv_add_quads, kinv_del_quads. auto.
 Qed.
 
-Lemma sols_eqb_eq a b : sols_eqb a b = true -> a = b.
-Proof.
-  intros H. unfold sols_eqb in H.
-  destruct (list_eqb_spec _ (list_eqb_spec _ (pair_eqb_spec _ _ N.eqb_spec N.eqb_spec)) a b); congruence.
-Qed.
-
 Lemma modify_ok e k w ud un d i om s a : scope e (Modify w ud un d i om) ->
-  op_kf e k (Modify w ud un d i om) = 0 ->
   kinv s -> qseteq (quads s) a -> step_ok e k (Modify w ud un d i om) s a.
-Proof.
-  intros Hd Hkf Hk Ha. unfold scope in Hd. unfold step_ok. simpl. simpl in Hkf.
-  destruct (sols_eqb (Sparql.Algebra.dedup om) om) eqn:E; [|discriminate].
-  rewrite (sols_eqb_eq _ _ E).
-  apply evalModify_ok; auto.
-  destruct Hd as [Hd|Hd]; [left; auto|right]. simpl in Hd.
-  apply orb_false_iff in Hd. destruct Hd as [Hd Hi]. apply orb_false_iff in Hd. destruct Hd as [Hd Hdq].
-  apply orb_false_iff in Hd. destruct Hd as [Hd Hun]. apply orb_false_iff in Hd. destruct Hd as [Hw Hud].
-  destruct w; [discriminate|]. rewrite Hud, Hun. auto.
-Qed.
-
-Lemma modify_s_ok e k w ud un d i om s a : scope e (ModifyS w ud un d i om) ->
-  kinv s -> qseteq (quads s) a -> step_ok e k (ModifyS w ud un d i om) s a.
 Proof.
   intros Hd Hk Ha. unfold scope in Hd. unfold step_ok. simpl.
   apply evalModify_ok; auto.
